@@ -89,10 +89,11 @@ type Contracts struct {
 	Always   []string // axioms always included
 	ReadOnly map[string]bool
 	constID  map[string]string // fnconst/typeconst name -> numeral, filled in by the engine
+	Macros   map[string]*SX
 }
 
 func newContracts() *Contracts {
-	return &Contracts{DeclBy: map[string]*Decl{}, ByName: map[string]*Contract{}, ReadOnly: map[string]bool{}, constID: map[string]string{}}
+	return &Contracts{DeclBy: map[string]*Decl{}, ByName: map[string]*Contract{}, ReadOnly: map[string]bool{}, constID: map[string]string{}, Macros: map[string]*SX{}}
 }
 
 // loadGoContractFile extracts /*@ ... */ blocks from a comment-only Go file.
@@ -180,6 +181,9 @@ func (c *Contracts) addDecl(d *Decl) error {
 }
 
 func (c *Contracts) loadForm(file string, f *SX) error {
+	if f.Head() != "macro" && len(c.Macros) > 0 {
+		f = c.expandMacros(f, 0)
+	}
 	h := f.Head()
 	switch h {
 	case "ghost":
@@ -194,6 +198,13 @@ func (c *Contracts) loadForm(file string, f *SX) error {
 		for _, a := range f.List[1:] {
 			c.ReadOnly[a.Atom] = true
 		}
+		return nil
+	case "macro":
+		// (macro (name p1 p2 ...) body): expanded in every contract expression loaded afterwards
+		if len(f.List) != 3 || !f.List[1].IsList() {
+			return errAt(file, f, "macro: (macro (name params...) body)")
+		}
+		c.Macros[f.List[1].List[0].Atom] = f
 		return nil
 	case "fnconst":
 		// (fnconst name "pkg.Func"): a named constant holding the identity of a Go function
@@ -440,6 +451,43 @@ func (c *Contracts) expandInst(file string, d *Decl, x *SX, err *error) *SX {
 	n := &SX{List: make([]*SX, len(x.List)), Line: x.Line}
 	for i, e := range x.List {
 		n.List[i] = c.expandInst(file, d, e, err)
+	}
+	return n
+}
+
+func substSX(x *SX, env map[string]*SX) *SX {
+	if x.IsAtom() {
+		if !x.IsStr {
+			if v, ok := env[x.Atom]; ok {
+				return v
+			}
+		}
+		return x
+	}
+	n := &SX{List: make([]*SX, len(x.List)), Line: x.Line}
+	for i, e := range x.List {
+		n.List[i] = substSX(e, env)
+	}
+	return n
+}
+
+func (c *Contracts) expandMacros(x *SX, depth int) *SX {
+	if x.IsAtom() || depth > 20 {
+		return x
+	}
+	n := &SX{List: make([]*SX, len(x.List)), Line: x.Line}
+	for i, e := range x.List {
+		n.List[i] = c.expandMacros(e, depth)
+	}
+	if m, ok := c.Macros[n.Head()]; ok {
+		params := m.List[1].List[1:]
+		if len(params) == len(n.List)-1 {
+			env := map[string]*SX{}
+			for i, p := range params {
+				env[p.Atom] = n.List[i+1]
+			}
+			return c.expandMacros(substSX(m.List[2], env), depth+1)
+		}
 	}
 	return n
 }
